@@ -9,6 +9,7 @@ package main
 import (
 	"bytes"
 	"context"
+	"encoding/json"
 	"errors"
 	"fmt"
 	"io"
@@ -513,4 +514,500 @@ func init() {
 	})
 }
 
-var _ = bytes.NewReader
+
+// ------------------------------------------------------------------------------------------------
+// C07: builds under backend faults; trace of backend operations; audit of the cache directory; follow-up build
+// ------------------------------------------------------------------------------------------------
+
+// traceLog is the global, totally ordered log of backend events of one case.
+type traceLog struct {
+	inflight sync.WaitGroup
+	mu       sync.Mutex
+	events   []map[string]any
+	keyLocks map[string]*sync.RWMutex
+	treeKeys map[string]bool
+	useLocks bool
+}
+
+func (t *traceLog) add(ev map[string]any) {
+	t.mu.Lock()
+	t.events = append(t.events, ev)
+	t.mu.Unlock()
+}
+
+func (t *traceLog) lockFor(ns, key string) *sync.RWMutex {
+	t.mu.Lock()
+	defer t.mu.Unlock()
+	k := ns + "\x00" + key
+	l, ok := t.keyLocks[k]
+	if !ok {
+		l = &sync.RWMutex{}
+		t.keyLocks[k] = l
+	}
+	return l
+}
+
+// procBackend is the backend as seen by one process: operations are numbered per process, faults are injected
+// according to the plan, events go to the shared trace. With useLocks, observers and writers of one key are
+// serialised in the wrapper so that the logged order of events is the order of their effects.
+type procBackend struct {
+	inner backends.CacheBackend
+	log   *traceLog
+	pid   int
+	mu    sync.Mutex
+	n     int
+	plan  map[int]string
+	every string
+	from  int
+}
+
+func (b *procBackend) TypeName() string { return b.inner.TypeName() }
+
+func (b *procBackend) next() (int, string) {
+	b.mu.Lock()
+	defer b.mu.Unlock()
+	b.n++
+	f := b.plan[b.n]
+	if f == "" && b.every != "" && b.n >= b.from {
+		f = b.every
+	}
+	return b.n, f
+}
+
+func resName(ok bool, err error) string {
+	if err != nil {
+		return "err"
+	}
+	if ok {
+		return "yes"
+	}
+	return "no"
+}
+
+func (b *procBackend) Exists(ctx context.Context, path, key string) (bool, error) {
+	b.log.inflight.Add(1)
+	defer b.log.inflight.Done()
+	n, f := b.next()
+	if b.log.useLocks {
+		l := b.log.lockFor(path, key)
+		l.RLock()
+		defer l.RUnlock()
+	}
+	if f != "" {
+		b.log.add(map[string]any{"e": "exists", "p": b.pid, "n": n, "ns": path, "k": key, "r": "err", "fault": f})
+		return false, errInjected
+	}
+	ok, err := b.inner.Exists(ctx, path, key)
+	b.log.add(map[string]any{"e": "exists", "p": b.pid, "n": n, "ns": path, "k": key, "r": resName(ok, err)})
+	return ok, err
+}
+
+func (b *procBackend) Get(ctx context.Context, path, key string) (io.ReadCloser, error) {
+	b.log.inflight.Add(1)
+	defer b.log.inflight.Done()
+	n, f := b.next()
+	if b.log.useLocks {
+		l := b.log.lockFor(path, key)
+		l.RLock()
+		defer l.RUnlock()
+	}
+	if f == "err" || f == "err-after" {
+		b.log.add(map[string]any{"e": "get", "p": b.pid, "n": n, "ns": path, "k": key, "r": "err", "fault": f})
+		return nil, errInjected
+	}
+	rc, err := b.inner.Get(ctx, path, key)
+	if err != nil {
+		r := "err"
+		if os.IsNotExist(err) {
+			r = "no"
+		}
+		b.log.add(map[string]any{"e": "get", "p": b.pid, "n": n, "ns": path, "k": key, "r": r})
+		return nil, err
+	}
+	if f == "err-mid" {
+		b.log.add(map[string]any{"e": "get", "p": b.pid, "n": n, "ns": path, "k": key, "r": "err", "fault": f})
+		return &failingReadCloser{failingReader{rc, 1}, rc}, nil
+	}
+	b.log.add(map[string]any{"e": "get", "p": b.pid, "n": n, "ns": path, "k": key, "r": "yes"})
+	return rc, nil
+}
+
+func (b *procBackend) Delete(ctx context.Context, path, key string) error {
+	return b.inner.Delete(ctx, path, key)
+}
+
+// refsOf extracts the digests a stored value references: outputs of a target result, file nodes of a tree blob.
+func (t *traceLog) refsOf(ns, key string, content []byte) []string {
+	refs := []string{}
+	switch {
+	case ns == "target":
+		tr := &gen.TargetResult{}
+		if proto.Unmarshal(content, tr) == nil {
+			for _, o := range tr.Outputs {
+				if f := o.GetFile(); f != nil {
+					refs = append(refs, f.GetDigest().GetHash())
+				}
+				if d := o.GetDirectory(); d != nil {
+					refs = append(refs, d.GetTreeDigest().GetHash())
+				}
+			}
+		}
+	case ns == "cas" && t.treeKeys[key]:
+		refs = append(refs, treeFileDigests(content)...)
+	}
+	return refs
+}
+
+func treeFileDigests(content []byte) []string {
+	refs := []string{}
+	tree := &gen.Tree{}
+	if proto.Unmarshal(content, tree) != nil {
+		return refs
+	}
+	dirs := append([]*gen.Directory{tree.Root}, tree.Children...)
+	for _, d := range dirs {
+		if d == nil {
+			continue
+		}
+		for _, f := range d.Files {
+			refs = append(refs, f.GetDigest().GetHash())
+		}
+	}
+	return refs
+}
+
+func (b *procBackend) Set(ctx context.Context, path, key string, content io.Reader) error {
+	b.log.inflight.Add(1)
+	defer b.log.inflight.Done()
+	n, f := b.next()
+	data, rerr := io.ReadAll(content)
+	if rerr != nil {
+		return rerr
+	}
+	if b.log.useLocks {
+		l := b.log.lockFor(path, key)
+		l.Lock()
+		defer l.Unlock()
+	}
+	hashOk := path != "cas" || hashing.HashBytes(data) == key
+	refs := b.log.refsOf(path, key, data)
+	b.log.add(map[string]any{"e": "sb", "p": b.pid, "op": n, "ns": path, "k": key, "refs": refs, "hashOk": hashOk, "fault": f})
+	var err error
+	o := "ok"
+	switch f {
+	case "err":
+		err, o = errInjected, "errNotStored"
+	case "err-mid":
+		err = b.inner.Set(ctx, path, key, &failingReader{bytes.NewReader(data), len(data) / 2})
+		if err == nil {
+			err = errInjected
+		}
+		o = "errNotStored"
+	case "err-after":
+		err = b.inner.Set(ctx, path, key, bytes.NewReader(data))
+		if err == nil {
+			err, o = errInjected, "errStored"
+		} else {
+			o = "errNotStored"
+		}
+	default:
+		err = b.inner.Set(ctx, path, key, bytes.NewReader(data))
+		if err != nil {
+			o = "errNotStored"
+		}
+	}
+	b.log.add(map[string]any{"e": "se", "p": b.pid, "op": n, "o": o})
+	return err
+}
+
+// auditCache is the model-independent oracle of C07: every visible cas/<d> re-hashes to d; every target/<k>
+// unmarshals and references only present blobs (trees: every file node and every child directory).
+func auditCache(cacheDir string) (problems []string, stats map[string]int) {
+	stats = map[string]int{"cas": 0, "targets": 0, "tmp": 0}
+	casDir := filepath.Join(cacheDir, "cas")
+	cas := dirFiles(casDir)
+	for name, content := range cas {
+		if strings.HasPrefix(name, "tmp-") {
+			stats["tmp"]++
+			continue
+		}
+		stats["cas"]++
+		if hashing.HashBytes(content) != name {
+			problems = append(problems, "cas/"+name+": content does not hash to its name")
+		}
+	}
+	present := func(d string) bool {
+		_, ok := cas[d]
+		return ok && !strings.HasPrefix(d, "tmp-")
+	}
+	for name, content := range dirFiles(filepath.Join(cacheDir, "target")) {
+		if strings.HasPrefix(name, "tmp-") {
+			stats["tmp"]++
+			continue
+		}
+		stats["targets"]++
+		tr := &gen.TargetResult{}
+		if err := proto.Unmarshal(content, tr); err != nil {
+			problems = append(problems, "target/"+name+": does not unmarshal")
+			continue
+		}
+		if tr.ChangeHash != name {
+			problems = append(problems, "target/"+name+": change hash differs from its name")
+		}
+		for _, o := range tr.Outputs {
+			if f := o.GetFile(); f != nil && !present(f.GetDigest().GetHash()) {
+				problems = append(problems, "target/"+name+": file blob "+f.GetDigest().GetHash()+" missing")
+			}
+			if d := o.GetDirectory(); d != nil {
+				td := d.GetTreeDigest().GetHash()
+				if !present(td) {
+					problems = append(problems, "target/"+name+": tree blob "+td+" missing")
+					continue
+				}
+				tree := &gen.Tree{}
+				if err := proto.Unmarshal(cas[td], tree); err != nil || tree.Root == nil {
+					problems = append(problems, "target/"+name+": tree blob "+td+" does not unmarshal")
+					continue
+				}
+				for _, fd := range treeFileDigests(cas[td]) {
+					if !present(fd) {
+						problems = append(problems, "target/"+name+": file blob "+fd+" of tree "+td+" missing")
+					}
+				}
+				kids := map[string]bool{}
+				for _, c := range tree.Children {
+					b, _ := proto.MarshalOptions{Deterministic: true}.Marshal(c)
+					kids[hashing.HashBytes(b)] = true
+				}
+				for _, dir := range append([]*gen.Directory{tree.Root}, tree.Children...) {
+					for _, dn := range dir.Directories {
+						if !kids[dn.GetDigest().GetHash()] {
+							problems = append(problems, "target/"+name+": child directory "+dn.Name+" of tree "+td+" missing")
+						}
+					}
+				}
+			}
+		}
+	}
+	sort.Strings(problems)
+	return problems, stats
+}
+
+// visibleKeys lists the visible (non tmp-*) names of a namespace directory.
+func visibleKeys(cacheDir, ns string) []string {
+	out := []string{}
+	for name := range dirFiles(filepath.Join(cacheDir, ns)) {
+		if !strings.HasPrefix(name, "tmp-") {
+			out = append(out, name)
+		}
+	}
+	sort.Strings(out)
+	return out
+}
+
+type faultTarget struct {
+	pkg, name, key string
+	outs           []model.Output
+}
+
+func parseTargets(v any) []faultTarget {
+	arr, _ := v.([]any)
+	out := []faultTarget{}
+	for _, x := range arr {
+		m, _ := x.(map[string]any)
+		name, _ := m["name"].(string)
+		key, _ := m["key"].(string)
+		out = append(out, faultTarget{pkg: b2s(m["pkg"]), name: name, key: key, outs: parseOutputs(m["outputs"])})
+	}
+	return out
+}
+
+func (t faultTarget) target() *model.Target {
+	return &model.Target{Label: label.TL(t.pkg, t.name), ChangeHash: t.key, Outputs: t.outs}
+}
+
+func parsePlan(v any) map[int]string {
+	m, _ := v.(map[string]any)
+	out := map[int]string{}
+	for k, x := range m {
+		var n int
+		fmt.Sscanf(k, "%d", &n)
+		s, _ := x.(string)
+		out[n] = s
+	}
+	return out
+}
+
+func init() {
+	register("store.faults", func(req map[string]any) (any, error) {
+		env, err := newStoreEnv(req)
+		if err != nil {
+			return nil, err
+		}
+		defer env.close()
+		if err := env.resetWorkspace(req["ws"]); err != nil {
+			return nil, fmt.Errorf("materialise ws: %w", err)
+		}
+		targets := parseTargets(req["targets"])
+		nprocs := 1
+		if f, ok := req["procs"].(float64); ok && f >= 1 {
+			nprocs = int(f)
+		}
+		useLocks, _ := req["lock"].(bool)
+		tl := &traceLog{keyLocks: map[string]*sync.RWMutex{}, treeKeys: map[string]bool{}, useLocks: useLocks}
+		// expected tree digests of the directory outputs (same code path as Write, nothing is stored)
+		origin := map[string]any{}
+		reg0 := output.NewRegistry(env.ctx, caching.NewCas(env.fs))
+		_ = reg0
+		for _, t := range targets {
+			for _, o := range t.outs {
+				abs := filepath.Join(env.ws, t.pkg, o.Identifier)
+				if l, err := listing(abs); err == nil {
+					origin[t.name+"\x00"+o.Identifier] = l
+				}
+			}
+		}
+		// tree digests: hash every directory output with the handler's own Hash (the registry's handler is not
+		// reachable; GetNoCacheOutputHash hashes but does not expose digests), so walk by a scratch Cas write
+		// into a throw-away cache root instead
+		{
+			saved := config.Global.Root
+			config.Global.Root = filepath.Join(env.dir, "probe-root")
+			pfs, err := backends.NewFileSystemCache(env.ctx)
+			if err == nil {
+				preg := output.NewRegistry(env.ctx, caching.NewCas(pfs))
+				for _, t := range targets {
+					if res, err := preg.WriteOutputs(env.ctx, t.target(), nil); err == nil {
+						for _, o := range res.Outputs {
+							if d := o.GetDirectory(); d != nil {
+								tl.treeKeys[d.GetTreeDigest().GetHash()] = true
+							}
+						}
+					}
+				}
+			}
+			config.Global.Root = saved
+			os.RemoveAll(filepath.Join(env.dir, "probe-root"))
+		}
+		plans, _ := req["plans"].([]any)
+		outcomes := make([][]string, nprocs)
+		var wg sync.WaitGroup
+		for p := 0; p < nprocs; p++ {
+			pb := &procBackend{inner: env.fs, log: tl, pid: p + 1, plan: map[int]string{}}
+			if p < len(plans) {
+				pm, _ := plans[p].(map[string]any)
+				pb.plan = parsePlan(pm["plan"])
+				pb.every, _ = pm["every"].(string)
+				if f, ok := pm["from"].(float64); ok {
+					pb.from = int(f)
+				}
+			}
+			wg.Add(1)
+			go func(p int, pb *procBackend) {
+				defer wg.Done()
+				cas := caching.NewCas(pb)
+				reg := output.NewRegistry(env.ctx, cas)
+				tc := caching.NewTargetResultCache(pb)
+				for _, t := range targets {
+					var res *gen.TargetResult
+					werr, hung := withTimeout(30*time.Second, func() error {
+						var e error
+						res, e = reg.WriteOutputs(env.ctx, t.target(), nil)
+						return e
+					})
+					switch {
+					case hung:
+						outcomes[p] = append(outcomes[p], "hang")
+					case werr != nil:
+						outcomes[p] = append(outcomes[p], "err-outputs")
+					default:
+						if e := tc.Write(env.ctx, res); e != nil {
+							outcomes[p] = append(outcomes[p], "err-result")
+						} else {
+							outcomes[p] = append(outcomes[p], "ok")
+						}
+					}
+				}
+			}(p, pb)
+		}
+		wg.Wait()
+		// uploadFiles / WriteOutputs return on the first error while the other uploads are still running:
+		// wait until every backend operation that was started has returned before looking at the cache
+		tl.inflight.Wait()
+		res := map[string]any{"outcomes": outcomes, "events": tl.events}
+		problems, stats := auditCache(env.cache)
+		res["audit"] = problems
+		res["stats"] = stats
+		res["cas_keys"] = visibleKeys(env.cache, "cas")
+		res["target_keys"] = visibleKeys(env.cache, "target")
+		// follow-up build: a new process without faults; restores what is cached, rebuilds what is not
+		follow := []any{}
+		cas := caching.NewCas(env.fs)
+		reg := output.NewRegistry(env.ctx, cas)
+		tc := caching.NewTargetResultCache(env.fs)
+		for _, t := range targets {
+			fr := map[string]any{"target": t.name}
+			cached, lerr := tc.Load(env.ctx, t.key)
+			if lerr == nil {
+				fr["mode"] = "restore"
+				// remove the outputs, then restore them
+				for _, o := range t.outs {
+					os.RemoveAll(filepath.Join(env.ws, t.pkg, o.Identifier))
+				}
+				rerr, hung := withTimeout(20*time.Second, func() error { return reg.LoadOutputs(env.ctx, t.target(), cached, nil) })
+				fr["ok"] = rerr == nil && !hung
+				if rerr != nil {
+					fr["msg"] = rerr.Error()
+				}
+				if hung {
+					fr["msg"] = "hang"
+				}
+				equal := rerr == nil && !hung
+				for _, o := range t.outs {
+					l, err := listing(filepath.Join(env.ws, t.pkg, o.Identifier))
+					a, _ := jsonString(l)
+					b, _ := jsonString(origin[t.name+"\x00"+o.Identifier])
+					if err != nil || a != b {
+						equal = false
+					}
+				}
+				fr["equal"] = equal
+			} else {
+				fr["mode"] = "rebuild"
+				r2, werr := reg.WriteOutputs(env.ctx, t.target(), nil)
+				if werr == nil {
+					werr = tc.Write(env.ctx, r2)
+				}
+				fr["ok"] = werr == nil
+				fr["equal"] = werr == nil
+				if werr != nil {
+					fr["msg"] = werr.Error()
+				}
+			}
+			follow = append(follow, fr)
+		}
+		res["followup"] = follow
+		problems2, stats2 := auditCache(env.cache)
+		res["audit_after"] = problems2
+		res["stats_after"] = stats2
+		return res, nil
+	})
+}
+
+func init() {
+	// audit of an existing cache directory (used after killing the real grog process)
+	register("store.audit", func(req map[string]any) (any, error) {
+		dir, _ := req["cache"].(string)
+		algo, _ := req["hash"].(string)
+		config.Global.HashAlgorithm = algo
+		problems, stats := auditCache(dir)
+		return map[string]any{"audit": problems, "stats": stats}, nil
+	})
+}
+
+func jsonString(v any) (string, error) {
+	b, err := jsonMarshal(v)
+	return string(b), err
+}
+
+func jsonMarshal(v any) ([]byte, error) { return json.Marshal(v) }
